@@ -281,6 +281,8 @@ fn implicit_default(a: &ArgSpec) -> Option<&'static str> {
 fn local_origin(a: &ArgSpec, occs: &[&Occ], env: &BTreeMap<String, Vec<u8>>, explicit_now: &BTreeMap<String, Vec<Vec<u8>>>, errors: &mut Vec<(&'static str, String)>) -> Option<ArgExpect> {
     if !occs.is_empty() {
         let raw: Vec<Vec<Vec<u8>>> = match a.action {
+            // a counter with a missing-value default takes that default on every occurrence instead of counting
+            Action::Count if !a.default_missing.is_empty() => vec![vec![a.default_missing[0].as_bytes().to_vec()]],
             Action::Count => vec![vec![occs.len().min(255).to_string().into_bytes()]],
             Action::SetTrue => vec![vec![b"true".to_vec()]],
             Action::SetFalse => vec![vec![b"false".to_vec()]],
@@ -319,6 +321,13 @@ fn local_origin(a: &ArgSpec, occs: &[&Occ], env: &BTreeMap<String, Vec<u8>>, exp
             None => false,
         };
         if hit {
+            if let Some(d) = dv {
+                for x in split_delim(d.as_bytes(), a.value_delimiter) {
+                    if let Err(why) = value_ok(a, &x) {
+                        errors.push((if why == "non-utf8" { "value-non-utf8" } else { "value" }, a.id.clone()));
+                    }
+                }
+            }
             return dv.as_ref().map(|d| ArgExpect {
                 src: Src::Default,
                 raw: vec![split_delim(d.as_bytes(), a.value_delimiter)],
@@ -668,6 +677,9 @@ fn gen_level(rng: &mut Rng, n: &mut usize, shorts: &mut Vec<char>, prefix: &str,
             _ => Action::Count,
         };
         let mut a = ArgSpec::new(&format!("a{k:03}"), action);
+        if action == Action::Count && rng.chance(1, 4) {
+            a.default_missing = vec!["7".to_string()];
+        }
         a.long = Some(format!("opt{k:03}"));
         if rng.chance(1, 2) {
             a.short = shorts.pop();
@@ -738,6 +750,9 @@ fn gen_level(rng: &mut Rng, n: &mut usize, shorts: &mut Vec<char>, prefix: &str,
                         }
                     }
                 }
+                // (now and then a conditional default the argument's own value parser rejects: a value error when
+                // the condition holds)
+                let dv = if rng.chance(1, 8) && matches!(c.args[t].parser, ValParser::I64 { .. } | ValParser::Possible(_)) { "not-in-language".to_string() } else { dv };
                 c.args[t].default_ifs.push((r, eq, if rng.chance(1, 5) { None } else { Some(dv) }));
             }
         }
